@@ -284,3 +284,22 @@ Example convert_keeps_target_file_alias_instance :
   generate_require pm src t = S "@value" /\ generate_require lm src t = S "@value" /\
   find_require pm [] f src (S "@value") = Found t /\ find_require lm [] f src (S "@value") = Found t.
 Proof. vm_compute. repeat split; reflexivity. Qed.
+
+(** the nearest [.luaurc] is used even when it declares no aliases: [.luaurc] {lib -> vendorA},
+    [src/.luaurc] without aliases, configured [@lib -> vendorB]: [require("@lib/x")] in
+    [src/main.luau] is [vendorB/x.lua] in both modes, and luau -> path writes [../vendorB/x] *)
+Example nearest_luaurc_without_aliases :
+  let lm := {| c_luau := true; c_mfn := S "init"; c_sources := [(S "@lib", Pn ["vendorB"])];
+               c_project := Some []; c_use_rc := true |} in
+  let pm := {| c_luau := false; c_mfn := S "init"; c_sources := []; c_project := Some []; c_use_rc := true |} in
+  let pm' := {| c_luau := false; c_mfn := S "init"; c_sources := [(S "@lib", Pn ["vendorB"])]; c_project := Some []; c_use_rc := true |} in
+  let rcs : rc_files := [([], [(S "lib", Pn ["vendorA"])]); (Pn ["src"], [])] in
+  let f := mk_fs [Pn ["src"; "main.luau"]; Pn [".luaurc"]; Pn ["src"; ".luaurc"]; Pn ["vendorA"; "x.lua"]; Pn ["vendorB"; "x.lua"]] in
+  let src := Pn ["src"; "main.luau"] in
+  first_rc rcs (ancestors src) = Some (Pn ["src"], []) /\
+  find_require lm rcs f src (S "@lib/x") = Found (Pn ["vendorB"; "x.lua"]) /\
+  find_require pm' rcs f src (S "@lib/x") = Found (Pn ["vendorB"; "x.lua"]) /\
+  find_require pm rcs f src (S "@lib/x") = Failed EUnknownSource /\
+  generate_require pm src (Pn ["vendorB"; "x.lua"]) = S "../vendorB/x" /\
+  find_require lm rcs f (Pn ["main.luau"]) (S "@lib/x") = Found (Pn ["vendorA"; "x.lua"]).
+Proof. vm_compute. repeat split; reflexivity. Qed.
